@@ -9,6 +9,7 @@ import PynModel.Kernels.Count
 import PynModel.Kernels.Process
 import PynModel.Core.ISet
 import PynModel.Core.Slice
+import PynModel.Process.Randomize
 /-!
 # Line protocol driver: one operation per input line, one canonical output line.
 Arrays are comma-separated integers, `-` is the empty array.  Anything the driver cannot
@@ -162,6 +163,18 @@ def kernelStep (toks : List String) : String :=
       | .error .index => "ERR index"
       | .error .value => "ERR value"
     | _, _, _, _ => "bad-op"
+  | ["shift", ts, a, b, sh] =>
+    match parseArr ts, a.toInt?, b.toInt?, sh.toInt? with
+    | some ts, some a, some b, some sh => if a < b then showArr (shiftTs ts a b sh) else "pre-fail"
+    | _, _, _, _ => "bad-op"
+  | ["jitter", ts, js] =>
+    match parseArr ts, parseArr js with
+    | some ts, some js => if ts.size = js.size then showArr (jitterTs ts js) else "pre-fail"
+    | _, _ => "bad-op"
+  | ["shuffle", ts, p] =>
+    match parseArr ts, parseNatArr p with
+    | some ts, some p => showArr (shuffleTs ts.toList p.toList).toArray
+    | _, _ => "bad-op"
   | ["mkiset", st, en] =>
     match parseArr st, parseArr en with
     | some st, some en =>
